@@ -48,6 +48,8 @@ def scenarios(rng, n, tier):
                 "p_limit": 0.3, "max_jobs": 3, "p_force": 0.2, "p_start": 0.5, "max_polls": 8}
         scn = scen.gen_life(rng, opts)
         ctor = rng.random() < 0.3
+        if ctor:
+            scn["ctor_kind"] = rng.choice(["set", "list", "tuple", "gen", "iter", "frozenset"])
         for o in scn["ops"]:
             if o["op"] == "sch":
                 if rng.random() < 0.8:
